@@ -332,12 +332,12 @@ func maxBehSrc(env *fw.Env, src string) int {
 		if q {
 			return 4000
 		}
-		return 16000
+		return 12000
 	case strings.HasPrefix(src, "gen:fallback"):
 		if q {
 			return 2500
 		}
-		return 8000
+		return 6000
 	}
 	return 0
 }
